@@ -369,7 +369,7 @@ package raft
 //@   props C09 C10
 //@   requires s.used != nil
 //@   requires [C10.snapshot-publish] PubInv(s.dir)
-//@   modifies fs
+//@   modifies fs, sortgen
 //@   crash_inv [C10.snapshot-publish] PubInv(s.dir)
 //@   ensures [C10.snapshot-publish] PubInv(s.dir)
 //@   ensures [C10.only-snapshot-files] forall(p, pkind(p) == 0 ==> fs[p] == old(fs[p]))
@@ -385,7 +385,7 @@ package raft
 //@   requires [C10.snapshot-publish] PubInv(s.snaps.dir) && !fs[mfile(s.snaps.dir, s.meta.index)]
 //@   requires [C19.snapshot-forward] s.snaps.index <= s.meta.index && AllBelow(s.snaps)
 //@   requires s.snaps.retain >= 1
-//@   modifies fs, fdone, fsize, lIdx, lTerm, lCfgIdx, lCfgTerm, lSize, s.meta.size, s.snaps.index, s.snaps.term
+//@   modifies sortgen, fs, fdone, fsize, lIdx, lTerm, lCfgIdx, lCfgTerm, lSize, s.meta.size, s.snaps.index, s.snaps.term
 //@   crash_inv [C10.snapshot-publish] PubInv(s.snaps.dir)
 //@   ensures [C10.snapshot-publish] PubInv(s.snaps.dir)
 //@   ensures [C12.label] result0.index == old(s.meta.index) && result0.term == old(s.meta.term) && result0.config == old(s.meta.config)
@@ -441,7 +441,7 @@ package raft
 //@   requires fsm.snaps != nil && fsm.snaps.used != nil && fsm.snaps.retain >= 1
 //@   requires PubInv(fsm.snaps.dir) && AllBelow(fsm.snaps)
 //@   requires [PA.request-config] config.Index == cfgIdxAt(greqCommit)
-//@   modifies fs, fdone, fsize, lIdx, lTerm, lCfgIdx, lCfgTerm, lSize, fsm.snaps.index, fsm.snaps.term
+//@   modifies sortgen, fs, fdone, fsize, lIdx, lTerm, lCfgIdx, lCfgTerm, lSize, fsm.snaps.index, fsm.snaps.term
 //@   ensures [C12.index-term] result1 == nil ==> result0.index == gsnapIdx && result0.term == gsnapTerm
 //@   ensures [C12.config-as-requested] result1 == nil ==> result0.config == config
 //@   ensures [C12.membership] result1 == nil ==> result0.config.Index == cfgIdxAt(result0.index)
@@ -531,7 +531,7 @@ package raft
 
 //@ func openSnapshots
 //@   props C10 C12
-//@   modifies fdone, fsize
+//@   modifies fdone, fsize, sortgen
 //@   ensures result1 != nil ==> result0 == nil
 //@   ensures result1 == nil ==> result0 != nil && isfresh(result0) && result0.dir == dir && result0.retain == opt.SnapshotsRetain && UsedOK(result0)
 //@   ensures [C10.reopen-latest] result1 == nil ==> AllBelow(result0) && (result0.index != 0 ==> fs[mfile(dir, result0.index)]) && (result0.index == 0 ==> result0.term == 0)
